@@ -247,6 +247,9 @@ def run(chk):
     fmts = []
     for j, job in enumerate(jobs):
         b, g = rng.choice(BASES), rng.randrange(1, 10)
+        if rng.random() < 0.02:
+            # a group wider than any run-time width `format!` accepts (finding F66b, repaired: 65536 panicked where 65535 worked)
+            g = rng.choice([65535, 65536, 65537, 70000])
         fmts.append([("annotated,base:%d,group:%d" % (b, g), ("annotated", b, g)),
                      ("annotated", ("annotated", 16, 2)) if rng.random() < 0.5 else ("annotatedbin", ("annotated", 2, 8)),
                      rng.choice([("tcgame", ("tcgame", 16, 2)), ("tcgamebin", ("tcgame", 2, 8)), ("tcgame,base:2,group:%d" % g, ("tcgame", 2, g)), ("tcgame,group:%d" % g, ("tcgame", 16, g))]),
